@@ -603,7 +603,7 @@ fn valid_input(stage: &str, size: &str, rng: &mut StdRng) -> (Vec<u8>, Value) {
     let text: String = (0..n).map(|i| (b'a' + (i % 26) as u8) as char).collect();
     let sample = Sample { name: text.clone(), id: 42, tags: vec!["x".into(); n.min(50)], blob: rand_bytes(rng, n) };
     match stage {
-        "frame" => {
+        "frame" | "frame_stream" => {
             let f = Frame::Message(MessagePayload { headers: rand_headers(rng), message: Bytes::from(rand_bytes(rng, n)) });
             let mut b = BytesMut::new();
             MessageCodec.encode(f, &mut b).unwrap();
@@ -688,6 +688,9 @@ fn mutate(stage: &str, mutn: &str, mut v: Vec<u8>, rng: &mut StdRng) -> Vec<u8> 
         "garbage_small" => v = rand_bytes(rng, 17),
         "garbage_big" => v = rand_bytes(rng, 70_000),
         "append_junk" => v.extend_from_slice(&rand_bytes(rng, 33)),
+        "stray_1" => v.extend_from_slice(&[0u8]),
+        "stray_3" => v.extend_from_slice(&[0u8, 0, 1]),
+        "stray_7" => v.extend_from_slice(&[0u8, 0, 0, 0, 0, 0, 2]),
         "len_2p32" => set_len(&mut v, 1 << 32),
         "len_2p40" => set_len(&mut v, 1 << 40),
         "len_2p61" => set_len(&mut v, 1 << 61),
@@ -736,6 +739,23 @@ fn run_stage(stage: &str, input: &[u8], valid: &[u8]) -> (&'static str, usize, b
                 while let Some(f) = c.decode(&mut buf).map_err(|e| e.to_string())? {
                     out.push(f);
                 }
+                Ok(out)
+            };
+            let reference = if same { dec(valid).ok() } else { None };
+            res(catch_unwind(AssertUnwindSafe(|| dec(input))), reference, |v| v.iter().map(|f| f.get_length().unwrap_or(0) as usize).sum())
+        }
+        "frame_stream" => {
+            // the framed reader over a byte source that ends: what the server and the client run
+            let dec = |b: &[u8]| -> Result<Vec<Frame>, String> {
+                let mut rd = tokio_util::codec::FramedRead::new(b, MessageCodec);
+                let mut out = vec![];
+                futures::executor::block_on(async {
+                    use futures::StreamExt;
+                    while let Some(f) = rd.next().await {
+                        out.push(f.map_err(|e| e.to_string())?);
+                    }
+                    Ok::<(), String>(())
+                })?;
                 Ok(out)
             };
             let reference = if same { dec(valid).ok() } else { None };
